@@ -37,7 +37,8 @@ def gen_config(rng):
         for j in range(rng.choice([0, 1, 1, 2, 3])):
             clsno += 1
             has_name = rng.random() < 0.8
-            c = {"cls": f"Cls{clsno}", "mode_name": None, "disabled": False, "default": False, "ctor_fault": False, "helper_base": False}
+            c = {"cls": f"Cls{clsno}", "mode_name": None, "disabled": False, "default": False, "ctor_fault": False, "helper_base": False,
+                 "falsy": rng.random() < 0.15}      # a mode object that evaluates false (e.g. an empty step queue with __len__)
             if has_name:
                 c["mode_name"] = rng.choice(names_pool) if rng.random() < (0.25 if p_fault else 0.0) else f"{rng.choice(names_pool)} {clsno}"
                 c["disabled"] = rng.random() < 0.15
@@ -138,8 +139,10 @@ def generate(seed, prop, tier, index=0):
                 ops.append(["disable"])
         else:
             n = rng.choice([0, 1, 2, 5, 12])
+            # sometimes robot code calls disable() itself while run() is still looping (from the k-th on_iteration)
+            dis_at = rng.randint(1, n) if n >= 2 and rng.random() < 0.2 else 0
             ops.append(["run", n, rng.choice(["ds", "ds", "ds_teleop", "exit"]), rng.choice([1, 2]) / 64.0,
-                        rng.choice([0, 0, 1, 3]) * GRID_US])
+                        rng.choice([0, 0, 1, 3]) * GRID_US, dis_at])
             if ops[-1][2] == "exit":
                 break
     return {"engine": ENGINE, "property": prop, "seed": seed, "config": cfg, "ops": ops}
@@ -178,6 +181,9 @@ def write_package(cfg, root):
                 L.append("    DISABLED = True")
             if c["default"]:
                 L.append("    DEFAULT = True")
+            if c.get("falsy"):
+                L.append("    def __len__(self):")
+                L.append("        return 0")
             L.append("    def __init__(self, *args, **kwargs):")
             L.append(f"        SIM.ctor({c['cls']!r}, args, kwargs)")
             if c["ctor_fault"]:
@@ -201,6 +207,7 @@ class _Sim:
         self.ctors = {}
         self.log = []
         self.ctor_args = []
+        self.disable_at, self.iter_count, self.selector = 0, 0, None
 
     def ctor(self, cid, args, kwargs):
         self.ctors[cid] = self.ctors.get(cid, 0) + 1
@@ -208,6 +215,11 @@ class _Sim:
 
     def cb(self, inst, hook, arg):
         self.log.append([getattr(inst, "CID", "?"), getattr(inst, "MODE_NAME", None), hook, arg, self.world.now_us()])
+        if hook == "on_iteration" and self.disable_at:
+            self.iter_count += 1
+            if self.iter_count == self.disable_at:
+                self.disable_at = 0
+                self.selector.disable()
 
     def take(self):
         l, self.log = self.log, []
@@ -458,6 +470,10 @@ def execute(plan, trace=False):
                     if m_active is not None:
                         continue
                     n, end_kind, period, late = op[1], op[2], op[3], op[4]
+                    dis_at = op[5] if len(op) > 5 else 0
+                    sim.disable_at, sim.iter_count, sim.selector = (dis_at if dis_at <= n else 0), 0, sel
+                    if sim.disable_at:
+                        fault("disable_called_inside_run_loop")
                     names_ok = choose()
                     m_active_cid = None
                     DS.setEnabled(n > 0)
@@ -471,11 +487,14 @@ def execute(plan, trace=False):
                         sel.run(period)
                     except Exception as e:
                         fail("run_raised", f"op {idx} {op}: run() raised {type(e).__name__}: {e}", idx)
+                    sim.disable_at = 0
                     got = sim.take()
                     full_log += got
                     iters = 0 if exited else n
                     if names_ok:
-                        check_log(idx, op, got, ["on_enable"] + ["on_iteration"] * iters + ["on_disable"], names_ok)
+                        k_it = min(iters, dis_at) if (dis_at and dis_at <= n and not exited) else iters
+                        # after disable() the mode has had its on_disable and nothing more is delivered, the loop goes on
+                        check_log(idx, op, got, ["on_enable"] + ["on_iteration"] * k_it + ["on_disable"], names_ok)
                         ts = [g[3] for g in got if g[2] == "on_iteration"]
                         if any(b < a for a, b in zip(ts, ts[1:])):
                             fail("elapsed_time", f"op {idx}: elapsed times decrease: {ts}", idx)
